@@ -126,6 +126,16 @@ class InlineHooks(lookx.VH):
         r = lookx.VH.mcall(self, recv, m, args, e, ev)
         if r is not NotImplemented:
             return r
+        if isinstance(recv, tuple) and recv and recv[0] == "enum" and "::" in recv[1] and m not in self.NO_INLINE:
+            meth, free, consts = _index(self.ctx)
+            c = meth.get((recv[1].split("::")[0], m), [])
+            if len(c) == 1:
+                saved = getattr(self, "self_ty", None)
+                self.self_ty = recv[1].split("::")[0]
+                try:
+                    return self.inline(c[0], args, recv)
+                finally:
+                    self.self_ty = saved
         if isinstance(recv, tuple) and recv and recv[0] == "struct" and m not in self.NO_INLINE:
             meth, free, consts = _index(self.ctx)
             c = meth.get((recv[1], m), [])
@@ -137,6 +147,41 @@ class InlineHooks(lookx.VH):
                 finally:
                     self.self_ty = saved
         return NotImplemented
+
+
+class OpHooks(InlineHooks):
+    """InlineHooks + spirv::Op values: alias-resolved opcode paths, equality of enum values, grammar::reflect predicates decided by
+    the per-opcode predicate evaluation, Box/Rc/Arc::new as identity"""
+
+    def __init__(self, ctx):
+        InlineHooks.__init__(self, ctx)
+        from ..model import predeval
+        self.pe = predeval(ctx)
+
+    def path(self, p):
+        o = self.pe.resolve_op(p)
+        if o is not None:
+            return ("enum", "Op::" + o, [])
+        return InlineHooks.path(self, p)
+
+    def match_path(self, v, path):
+        o = self.pe.resolve_op(path)
+        if o is not None and isinstance(v, tuple) and v[0] == "enum":
+            return v[1] == "Op::" + o
+        return NotImplemented
+
+    def binary(self, op, a, b, e):
+        if op in ("==", "!=") and isinstance(a, tuple) and isinstance(b, tuple) and a and b and a[0] == "enum" and b[0] == "enum":
+            return (a[1:] == b[1:]) == (op == "==")
+        return InlineHooks.binary(self, op, a, b, e)
+
+    def call(self, p, args, e):
+        last = p.split("::")[-1]
+        if last in self.pe.fns and len(args) == 1 and isinstance(args[0], tuple) and args[0][0] == "enum" and args[0][1].startswith("Op::"):
+            return args[0][1][4:] in self.pe.predicate(last)
+        if p.split("::")[-2:] in (["Box", "new"], ["Rc", "new"], ["Arc", "new"]) and len(args) == 1:
+            return args[0]
+        return InlineHooks.call(self, p, args, e)
 
 
 def make(hooks, what):
